@@ -128,6 +128,35 @@ Definition protocol_shape_ok : bool :=
   && has_def gen_stored_fields "out.Diagnostics" "result.diags"
   && has_def gen_stored_fields "out.Unused" "result.unused".
 
+(* The action hash does not say whether a package was analysed as initial package or merely as a dependency
+   (a.factsOnly); the two are told apart only by WHICH sub-keys exist.  So a facts-only analysis must store
+   nothing but "vetx": every store of another kind comes after `if a.factsOnly { return nil }` in the same or
+   an enclosing block, and the other kinds are looked up only under `if !a.factsOnly`. *)
+Fixpoint list_prefix (a b : list string) : bool :=
+  match a, b with
+  | [], _ => true
+  | x :: a', y :: b' => String.eqb x y && list_prefix a' b'
+  | _ :: _, [] => false
+  end.
+Definition is_vetx (kind : string) : bool := String.eqb kind """vetx""".
+Fixpoint stores_guarded (g : option (list string)) (evs : list (string * string * list string)) : bool :=
+  match evs with
+  | [] => true
+  | (k, d, ctx) :: t =>
+    if String.eqb k "return-nil-if" then
+      if String.eqb d "a.factsOnly"
+      then stores_guarded (match g with Some _ => g | None => Some ctx end) t
+      else stores_guarded g t
+    else if String.eqb k "store" then
+      (is_vetx d || match g with Some c => list_prefix c ctx | None => false end) && stores_guarded g t
+    else stores_guarded g t
+  end.
+Definition factsonly_ok : bool :=
+  stores_guarded None gen_store_events
+  && existsb (fun e => String.eqb (fst (fst e)) "store" && is_vetx (snd (fst e))) gen_store_events
+  && existsb (fun e => String.eqb (fst (fst e)) "store" && String.eqb (snd (fst e)) """results""") gen_store_events
+  && forallb (fun l => if is_vetx (fst l) then slist_eqb (snd l) [] else smem "if !a.factsOnly" (snd l)) gen_lookup_ctx.
+
 (* --- environment reads --- *)
 Inductive envclass :=
 | EnvKeyed (d : dim)        (* the very call is an argument of a key component *)
